@@ -130,7 +130,7 @@ def fan_cfg(rng, alg):
     nm = rng.choice([1, 2, 2, 3])
     machines = [{"id": f"m{i}", "cpu": rng.choice([1, 2, 3]), "bw": 1} for i in range(nm)]
     obs = []
-    for i in range(rng.choice([1, 2])):
+    for i in range(rng.choice([1, 2, 2, 3])):
         width = rng.randint(3, 6)
         nodes = [{"k": 1, "comp": rng.choice([1, 2]), "data": 0}]
         edges = []
@@ -141,9 +141,9 @@ def fan_cfg(rng, alg):
             nodes.append({"k": width + 2, "comp": 2, "data": 0})
             for k in range(2, width + 2):
                 edges.append({"u": k, "v": width + 2, "vol": rng.choice([0, 1])})
-        obs.append({"o": "ab"[i], "est": rng.randint(0, 2), "dur": rng.randint(1, 2), "demand": 1, "ing": 1,
+        obs.append({"o": "abc"[i], "est": rng.randint(0, 2) + 12 * i * rng.randint(0, 1), "dur": rng.randint(1, 2), "demand": 1, "ing": 1,
                     "rate": 1, "wf": {"nodes": nodes, "edges": edges}})
-    cfg = {"machines": machines, "arrays": 2, "maxIngest": 1, "hotCap": 40, "coldCap": 20, "hotRate": 3,
+    cfg = {"machines": machines, "arrays": 2, "maxIngest": 1, "hotCap": 60, "coldCap": 20, "hotRate": 3,
            "coldRate": 2, "obs": obs, "alg": alg, "parts": 1, "minPer": 1}
     if alg in ("plan", "greedy"):
         cfg["plan"] = gen.static_plan(cfg, rng)
@@ -151,8 +151,12 @@ def fan_cfg(rng, alg):
             for a in cfg["plan"]:
                 a["eft"] = a["eft"] - a["est"]
                 a["est"] = 0
-    if rng.random() < 0.4:
+    r = rng.random()
+    if r < 0.3:
         cfg["extra"] = [{"o": o["o"], "k": n["k"], "x": 1} for o in obs for n in o["wf"]["nodes"] if rng.random() < 0.3]
+    elif r < 0.6 and alg in ("batch", "queue"):
+        cfg["realDelay"] = {"prob": rng.choice([0.3, 0.5, 1.0]), "dist": rng.choice(["normal", "poisson", "uniform"]),
+                            "degree": rng.choice(["LOW", "MID", "HIGH"]), "seed": rng.choice([20, 3])}
     return gen.normalise(cfg)
 
 
@@ -198,8 +202,9 @@ def hash_pairs(tier, seed, workers=16):
             if hs != 0:
                 pairs.append({"a": base[ci], "b": o, "refusals": [],
                               "what": {"cfg": cfgs[ci], "hashseed": hs}})
-        # in-process repetition
-        for ci in range(min(4, ncfg)):
+        # in-process repetition (every configuration: state that survives a run
+        # inside the interpreter must not influence the next one)
+        for ci in range(ncfg):
             t1 = canon(runsim.run(cfgs[ci], budget=batch.serial_bound(cfgs[ci]) + 5))
             t2 = canon(runsim.run(cfgs[ci], budget=batch.serial_bound(cfgs[ci]) + 5))
             pairs.append({"a": t1, "b": t2, "refusals": [], "what": {"cfg": cfgs[ci], "hashseed": "same-process"}})
